@@ -646,18 +646,36 @@ package channel
 //@     modifies
 //@     invariant lastErr == nil && forall b wallet.BackendID :: !visited(b)
 
+//@ pred partKeysOK(m map[wallet.BackendID]wallet.Address) =
+//@   forall b wallet.BackendID :: has(m, b) ==> b == addrBackend(m[b]) && has(backend, addrBackend(m[b])) && backend[addrBackend(m[b])] != nil
+
+// NewParamsUnsafe computes the ID over the completely initialised parameters and caches it.
+//@ func NewParamsUnsafe
+//@   requires len(parts) > 0 && backendsKnown(parts[0]) && len(parts[0]) > 0
+//@   ensures result != nil && fresh(result) && result.ChallengeDuration == challengeDuration && result.Parts == parts && result.App == app &&
+//@           result.Nonce == nonce && result.LedgerChannel == ledger && result.VirtualChannel == virtual && result.Aux == aux && result.id != Zero
+//@   callsite CalcID : p.ChallengeDuration == challengeDuration && p.Parts == parts && p.App == app && p.Nonce == nonce && p.LedgerChannel == ledger && p.VirtualChannel == virtual
+
 //@ func NewParams
 //@   requires forall i int :: 0 <= i && i < len(parts) ==> addrMapNonNil(parts[i])
 //@   ensures result1 != nil ==> result0 == nil
 //@   ensures result1 == nil ==> result0 != nil && fresh(result0) && result0.ChallengeDuration == challengeDuration && result0.Parts == parts &&
 //@           result0.App == app && result0.Nonce == nonce && result0.LedgerChannel == ledger && result0.VirtualChannel == virtual && result0.Aux == aux &&
 //@           challengeDuration != 0 && len(parts) >= 2 && len(parts) <= MaxNumParts && app != nil && nonce != nil
+// (C17) the documented constraints: a violation of any of them is refused; an accepted participant list has at least one
+// address per participant, each stored under its own backend id and belonging to a registered backend.
+//@   ensures challengeDuration == 0 || len(parts) < MinNumParts || len(parts) > MaxNumParts || app == nil || nonce == nil ==> result1 != nil
+//@   ensures nonce != nil && bytelen(val(nonce)) > MaxNonceLen ==> result1 != nil
+//@   ensures (exists i int :: 0 <= i && i < len(parts) && len(parts[i]) == 0) ==> result1 != nil
+//@   ensures result1 == nil ==> bytelen(val(nonce)) <= MaxNonceLen && forall i int :: 0 <= i && i < len(parts) ==> len(parts[i]) > 0 && partKeysOK(parts[i])
+//@   ensures result1 == nil ==> result0.id != Zero
 //@   loop 1
 //@     modifies
-//@     invariant forall k int :: 0 <= k && k < $i ==> backendsKnown(parts[k]) && len(parts[k]) > 0
+//@     invariant forall k int :: 0 <= k && k < $i ==> backendsKnown(parts[k]) && len(parts[k]) > 0 && partKeysOK(parts[k])
 //@   loop 2
 //@     modifies
 //@     invariant 0 <= $i - 1 && forall b wallet.BackendID :: visited(b) ==> has(backend, b) && backend[b] != nil
+//@     invariant forall b wallet.BackendID :: visited(b) ==> b == addrBackend(ps[b]) && has(backend, addrBackend(ps[b])) && backend[addrBackend(ps[b])] != nil
 
 
 //@ func (*Balances).Decode
@@ -840,3 +858,11 @@ package channel
 //@           subAlloc.Bals == a.Locked[i].Bals && subAlloc.IndexMap == a.Locked[i].IndexMap
 //@   loop 1
 //@     invariant forall k int :: 0 <= k && k < $i ==> a.Locked[k].ID != subchannel
+
+// Params.Decode (C17): decoded parameters go through the validating constructor: on success every documented constraint
+// holds for the decoded fields and the cached ID was computed from exactly these fields (NewParamsUnsafe's call-site obligation).
+//@ func (*Params).Decode
+//@   requires r != nil && p != nil
+//@   modifies *
+//@   ensures result == nil ==> p.ChallengeDuration != 0 && len(p.Parts) >= MinNumParts && len(p.Parts) <= MaxNumParts && p.App != nil && p.Nonce != nil &&
+//@           bytelen(val(p.Nonce)) <= MaxNonceLen && p.id != Zero && forall i int :: 0 <= i && i < len(p.Parts) ==> len(p.Parts[i]) > 0 && partKeysOK(p.Parts[i])
